@@ -1310,8 +1310,9 @@ def scenario_clauses(mods, ctx, want):
         out += box_clauses(mods, ctx, want)
     if 'C04' in want:
         for (kind, sol, snap, n0, n1) in ctx['returned']:
-            if kind == 'solve' and not cfg.get('refine'):
-                out += [('C04 ' + l, c) for l, c in optimum_clauses(snapshot_solution(sol), prob.done, 'in the returned Solution')]
+            if kind == 'solve':
+                out += [('C04 ' + l, c) for l, c in optimum_clauses(snapshot_solution(sol), prob.done,
+                                                                     'in the returned Solution' + (' (after refinement)' if cfg.get('refine') else ''))]
     return out
 
 
